@@ -10,6 +10,7 @@ import DL.Model.ScopeJson
 import DL.Model.Scope2Json
 import DL.Model.FixBuild
 import DL.Model.Txt
+import DL.Model.VmsJson
 
 /-! `dlmodel`: one JSON request per line on stdin, one JSON answer per line on stdout. -/
 open Lean (Json)
@@ -187,6 +188,7 @@ def dispatch (j : Json) : Except String Json := do
   | "txt" => do
     let t ← getStr j "t"
     pure (Json.mkObj [("hits", Json.arr ((DL.Txt.preferAscii t.toList).map (fun h => Json.arr #[(h.start : Json), (h.stop : Json)])).toArray)])
+  | "vms" => DL.Vms.runVms j
   | "fixb" => do
     let v ← getStr j "v"
     pure (Json.mkObj [("text", match DL.FixBuild.jsxAttrQuote v.toList with
